@@ -493,7 +493,7 @@ class DataType(object):
             elif split_data_type[1] == 'mediumint':
                 if len(split_data_type) > 2 and split_data_type[2] == 'signed':
                     element = e.data(
-                        e.param(str(-(2 ** 23) + 1), name='minInclusive'),
+                        e.param(str(-(2 ** 23)), name='minInclusive'),
                         e.param(str(+(2 ** 23) - 1), name='maxInclusive'),
                         type='int'
                     )
